@@ -12,15 +12,15 @@ open Gen Spec
 
 theorem reverse_flips_all (sol : List (List IPt)) (p : QPt) :
     windS (sol.map List.reverse) p = - windS sol p := by
-  sorry
+  exact Proofs.C17.windS_reverse_all sol p
 
 theorem reverse_area (path : List IPt) : area2 path.reverse = - area2 path := by
-  sorry
+  exact Proofs.C17.area2_reverse path
 
 /-- `ptsReallyClose` (used by isVerySmallTriangle): both coordinate differences below 2 in magnitude -/
 theorem ptsReallyClose_iff (a b : Point64) (ha : a.inRange) (hb : b.inRange) :
     ptsReallyClose a b = true ↔
       ((a.X.toInt - b.X.toInt).natAbs < 2 ∧ (a.Y.toInt - b.Y.toInt).natAbs < 2) := by
-  sorry
+  exact Proofs.C02.ptsReallyClose_iff a b ha hb
 
 end C02
